@@ -284,11 +284,15 @@ func runC15(r *Run, p *Prog) {
 	// I3: release on every exit
 	r.Guard("I3", func() {
 		for _, rf := range m.Reset {
-			isClose := func(in ssa.Instruction) bool {
-				c, ok := in.(*ssa.Call)
-				return ok && c.Call.IsInvoke() && c.Call.Method.Name() == "Close" && strings.HasSuffix(strip(T.T(c.Call.Value)), ".listener")
+			ec := newEffectCache(p, T)
+			isClose := func(in ssa.Instruction) bool { return ec.closesListener(in) }
+			isDrop := func(in ssa.Instruction) bool {
+				// the point at which the reference is gone: a direct zero store, or a helper that drops without closing
+				if isZeroStoreTo(in, "listener") {
+					return true
+				}
+				return ec.zeroes(in, "listener") && !ec.closesListener(in)
 			}
-			isDrop := func(in ssa.Instruction) bool { return isZeroStoreTo(in, "listener") }
 			reach, w := reachInstr(rf, nil, isDrop, isClose, func(a, b *ssa.BasicBlock) bool {
 				for _, f := range T.edgeFactsOn(a, b) {
 					if f.Op == "EQ" && (f.A == "nil" && strings.HasSuffix(strip(f.B), ".listener") || f.B == "nil" && strings.HasSuffix(strip(f.A), ".listener")) {
@@ -299,7 +303,7 @@ func runC15(r *Run, p *Prog) {
 			})
 			r.Ob("I3", shortName(rf), "the reset closes the listener it drops, on every path where one is set", rf.Pos(), !reach,
 				"the reset can forget a listener without closing it: after a timeout exit the endpoint stays open - later connection attempts hang instead of failing, the socket file remains and the address cannot be served again", witnessPos(p, w)...)
-			ok, w2 := everyPathPasses(rf, nil, isReturn, isDrop)
+			ok, w2 := everyPathPasses(rf, nil, isReturn, func(in ssa.Instruction) bool { return ec.zeroes(in, "listener") })
 			r.Ob("I3", shortName(rf), "the reset drops the listener reference on every path", rf.Pos(), ok, "", witnessPos(p, w2)...)
 		}
 		if len(m.Reset) == 0 {
